@@ -48,6 +48,13 @@ func TestBoundedPacerSizes(t *testing.T) {
 		for k := 0; k < size; k++ {
 			buf[k] = 0xEE
 		}
+		// every 500th packet is followed by one whose SSRC has no registered stream (an RTX / FEC SSRC written through
+		// the same pacer): it is dropped, and must not disturb anything that follows
+		if size%500 == 0 {
+			if _, err := p.Write(&rtp.Header{Version: 2, SSRC: 77, SequenceNumber: uint16(size)}, buf[:size], nil); err != nil {
+				t.Fatalf("BOUNDED-FAIL size=%d: Write for an unregistered SSRC failed: %v", size, err)
+			}
+		}
 	}
 	deadline := time.After(120 * time.Second)
 	for size := 0; size <= maxSize; size++ {
@@ -65,5 +72,32 @@ func TestBoundedPacerSizes(t *testing.T) {
 		t.Fatalf("BOUNDED-FAIL: extra packet forwarded (sequence number %d)", g.seq)
 	case <-time.After(50 * time.Millisecond):
 	}
-	fmt.Printf("BOUNDED-OK packets=%d sizes=0..%d\n", maxSize+1, maxSize)
+	// the pacer keeps working: a stream bound afterwards is served (a lock left held by the drop path would block here)
+	late := make(chan int, 1)
+	bound := make(chan struct{})
+	go func() {
+		p.AddStream(10, interceptor.RTPWriterFunc(func(_ *rtp.Header, payload []byte, _ interceptor.Attributes) (int, error) {
+			late <- len(payload)
+
+			return len(payload), nil
+		}))
+		close(bound)
+	}()
+	select {
+	case <-bound:
+	case <-time.After(20 * time.Second):
+		t.Fatalf("BOUNDED-FAIL: AddStream blocked after packets with an unregistered SSRC had been dropped")
+	}
+	if _, err := p.Write(&rtp.Header{Version: 2, SSRC: 10, SequenceNumber: 1}, buf[:7], nil); err != nil {
+		t.Fatalf("BOUNDED-FAIL: Write to the late stream failed: %v", err)
+	}
+	select {
+	case n := <-late:
+		if n != 7 {
+			t.Fatalf("BOUNDED-FAIL: late stream received %d bytes, want 7", n)
+		}
+	case <-time.After(20 * time.Second):
+		t.Fatalf("BOUNDED-FAIL: packet of a stream bound after the drops was not forwarded")
+	}
+	fmt.Printf("BOUNDED-OK packets=%d sizes=0..%d unregistered=%d\n", maxSize+1, maxSize, maxSize/500+1)
 }
